@@ -47,10 +47,43 @@ func (fr *Frame) freshResults(sig *types.Signature, name string) []Term {
 	return res
 }
 
+// calleeContract finds the contract (if any) that a call site is checked against.
+func (fr *Frame) calleeContract(cc *ssa.CallCommon) (*FuncContract, string) {
+	c := fr.c
+	if cc.IsInvoke() {
+		k := ifaceKey(cc)
+		return c.eng.cs.Funcs[k], k
+	}
+	callee := cc.StaticCallee()
+	if callee == nil {
+		if val, ok := fr.vals[cc.Value]; ok && val.Fn != nil {
+			callee = val.Fn
+		}
+	}
+	if callee != nil {
+		return c.eng.cs.Funcs[callee.String()], callee.String()
+	}
+	if fc := c.eng.fnTypeContract(cc.Value.Type()); fc != nil {
+		return fc, fc.Key
+	}
+	return nil, "dynamic call of " + cc.Value.Name()
+}
+
 func (fr *Frame) call(v ssa.Value, cc *ssa.CallCommon, st *State, ins ssa.Instruction) {
 	c := fr.c
 	pos := ins.Pos()
 	sig := cc.Signature()
+	if fr.top && c.fc != nil && len(c.fc.EnsuresAlways) > 0 {
+		_, isDefer := ins.(*ssa.Defer)
+		_, isBuiltin := cc.Value.(*ssa.Builtin)
+		if !isDefer && !isBuiltin {
+			// every call may panic, except library / OS functions whose (assumed) contract says they return
+			fcc, name := fr.calleeContract(cc)
+			if fcc == nil || !(fcc.Trusted || fcc.Assumed) || fcc.MayPanic {
+				c.panicPts = append(c.panicPts, panicPoint{st: st.clone(), blk: fr.curBlock, pos: pos, callee: name, fc: fcc})
+			}
+		}
+	}
 	if cc.IsInvoke() {
 		recv := fr.term(cc.Value, st)
 		fr.nopanic(st, "nil", pos, not(app("=", recv.S, "0")), "method call on nil interface")
@@ -193,7 +226,7 @@ func (fr *Frame) call(v ssa.Value, cc *ssa.CallCommon, st *State, ins ssa.Instru
 		fr.applyContract(fc, callee, sig, termArgs(), st, pos, v, name, false)
 		return
 	}
-	if c.eng.inModule(callee) && callee.Blocks != nil && fr.canInline(callee) {
+	if c.eng.inModule(callee) && callee.Blocks != nil && fr.canInline(callee) && !(c.fc != nil && c.fc.NoInline) {
 		c.callees[name] = "inlined"
 		fr.inline(callee, clo, cc, st, v)
 		return
